@@ -92,17 +92,27 @@ def isWorkerEv : Ev → Bool
   | .start _ _ => true | .fin _ _ => true | _ => false
 
 /-- remaining observed events: single stream (`.1`, `.2 = []`) or main / worker streams -/
-abbrev Rem := List Ev × List Ev
+abbrev Rem := List Ev × List (List Ev)
 
-/-- consume the events a step emitted (oldest first); `dual`: worker events come from the second stream -/
+def workerOf : Ev → Nat
+  | .start _ w => w | .fin _ w => w | _ => 0
+
+def popAt : List (List Ev) → Nat → Ev → Option (List (List Ev))
+  | [], _, _ => none
+  | l :: ls, 0, e => match l with
+    | o :: l' => if o = e then some (l' :: ls) else none
+    | [] => none
+  | l :: ls, k + 1, e => (popAt ls k e).map (l :: ·)
+
+/-- consume the events a step emitted (oldest first); `dual`: the events of worker `w` come from stream `w` -/
 def consume (inp : RunInput) (dual : Bool) : Rem → List Ev → Option Rem
   | r, [] => some r
   | (m, w), e :: es =>
     if hidden inp e then consume inp dual (m, w) es
     else if dual && isWorkerEv e then
-      match w with
-      | o :: w' => if o = e then consume inp dual (m, w') es else none
-      | [] => none
+      match popAt w (workerOf e) e with
+      | some w' => consume inp dual (m, w') es
+      | none => none
     else
       match m with
       | o :: m' => if o = e then consume inp dual (m', w) es else none
@@ -112,15 +122,34 @@ partial def permsOf : List Nat → List (List Nat)
   | [] => [[]]
   | xs => xs.flatMap fun x => (permsOf (xs.erase x)).map (x :: ·)
 
-/-- orders to try for the set iterated by the main thread's next step -/
-def permCandidates (s : Sys) : List (List Nat) :=
-  let wake (p : Option Nat) : List (List Nat) :=
+/-- position of the first remaining observed event that names task `x` (large when none does) -/
+def firstMention (obs : List Ev) (x : Nat) : Nat :=
+  match obs.findIdx? (Ev.mentions x) with
+  | some i => i
+  | none => 1000000 + x
+
+/-- insertion sort by first mention in the observed events still to be matched -/
+def sortByMention (obs : List Ev) (xs : List Nat) : List Nat :=
+  xs.foldl (fun acc x =>
+    let k := firstMention obs x
+    (acc.takeWhile fun y => firstMention obs y ≤ k) ++ x :: (acc.dropWhile fun y => firstMention obs y ≤ k)) []
+
+/-- orders to try for a set that the main thread's next step iterates: first the order suggested by the observed
+    trace, then (small sets) every order.  Second component: the enumeration was cut short. -/
+def ordersOf (obs : List Ev) (xs : List Nat) : List (List Nat) × Bool :=
+  let h := sortByMention obs xs
+  if xs.length ≤ 1 then ([xs], false)
+  else if xs.length > 6 then ([h, xs, xs.reverse], true)
+  else (h :: (permsOf xs).filter (· ≠ h), false)
+
+def permCandidates (s : Sys) (obs : List Ev) : List (List Nat) × Bool :=
+  let wake (p : Option Nat) : List (List Nat) × Bool :=
     match p with
-    | none => [[]]
+    | none => ([[]], false)
     | some p =>
       match s.nodes p with
-      | some nd => if nd.status = .run then [[]] else if nd.waitingMe.length > 5 then [nd.waitingMe] else permsOf nd.waitingMe
-      | none => [[]]
+      | some nd => if nd.status = .run then ([[]], false) else ordersOf obs nd.waitingMe
+      | none => ([[]], false)
   match s.rpc with
   | .sTop p => wake p
   | .gLoop p _ => wake p
@@ -128,11 +157,10 @@ def permCandidates (s : Sys) : List (List Nat) :=
     match s.susp, s.cur with
     | none, some n =>
       match s.nodes n with
-      | some nd =>
-        if nd.pc = .loopTop then (if nd.pendCalc.length > 5 then [nd.pendCalc] else permsOf nd.pendCalc) else [[]]
-      | none => [[]]
-    | _, _ => [[]]
-  | _ => [[]]
+      | some nd => if nd.pc = .loopTop then ordersOf obs nd.pendCalc else ([[]], false)
+      | none => ([[]], false)
+    | _, _ => ([[]], false)
+  | _ => ([[]], false)
 
 /-- events emitted by a step, oldest first -/
 def emitted (s s' : Sys) : List Ev := (s'.events.take (s'.events.length - s.events.length)).reverse
@@ -142,9 +170,10 @@ structure Best where
   expected : List (List Ev) := []
   steps : Nat := 0
   perms : Nat := 0
+  capped : Bool := false
 deriving Inhabited
 
-def remLen (r : Rem) : Nat := r.1.length + r.2.length
+def remLen (r : Rem) : Nat := r.1.length + (r.2.map List.length).sum
 
 def lowestIdle (s : Sys) : Nat → Option Nat
   | 0 => none
@@ -160,15 +189,15 @@ def runningNoAct (inp : RunInput) (s : Sys) : Nat → Option Nat
       | .running n => if inp.noAct n then some k else none
       | _ => none
 
-/-- the worker move that would emit the next observed worker event -/
-def nextWorkerMove (dual : Bool) (r : Rem) : Option Choice :=
-  let look (es : List Ev) : Option Choice :=
+/-- the worker moves that would emit a next observed worker event (single stream: at most one) -/
+def nextWorkerMoves (dual : Bool) (r : Rem) : List Choice :=
+  let look (es : List Ev) : List Choice :=
     match es with
-    | .start _ w :: _ => some (.take w)
-    | .execute _ :: .start _ w :: _ => some (.take w)
-    | .fin _ w :: _ => some (.done w)
-    | _ => none
-  if dual then look r.2 else look r.1
+    | .start _ w :: _ => [.take w]
+    | .execute _ :: .start _ w :: _ => [.take w]
+    | .fin _ w :: _ => [.done w]
+    | _ => []
+  if dual then r.2.flatMap look else look r.1
 
 inductive Verdict | accepted | rejected | budget
 deriving DecidableEq, Inhabited
@@ -180,8 +209,9 @@ partial def search (inp : RunInput) (dual : Bool) (total : Nat) (wantExit : Nat)
   if b.steps > 400000 then return (.budget, b)
   let stepF := stepOf inp
   -- 1. the main thread
-  let cands := permCandidates s
+  let (cands, cap) := permCandidates s (r.1 ++ r.2.flatten)
   if cands.length > 1 then b := { b with perms := b.perms + 1 }
+  if cap then b := { b with capped := true }
   let mut mainBlocked := true
   let mut mainExpected : List (List Ev) := []
   for perm in cands do
@@ -223,16 +253,20 @@ partial def search (inp : RunInput) (dual : Bool) (total : Nat) (wantExit : Nat)
           | none => pure ()
         | none => pure ()
       | none => pure ()
-    -- 3. the worker move demanded by the next observed worker event
-    match nextWorkerMove dual r with
-    | some c =>
+    -- 3. a worker move demanded by a next observed worker event (process runner: one candidate per worker)
+    let mut moved := false
+    for c in nextWorkerMoves dual r do
       match stepF s c with
       | some s' =>
         match consume inp dual r (emitted s s') with
-        | some r' => return search inp dual total wantExit wantDeadlock s' r' b
+        | some r' =>
+          moved := true
+          let (v, b') := search inp dual total wantExit wantDeadlock s' r' b
+          b := b'
+          if v ≠ .rejected then return (v, b)
         | none => pure ()
       | none => pure ()
-    | none => pure ()
+    if moved then return (.rejected, b)
   -- 4. stuck: final verdict
   let m := total - remLen r
   if m ≥ b.matched then b := { b with matched := m, expected := mainExpected }
@@ -247,7 +281,7 @@ partial def search (inp : RunInput) (dual : Bool) (total : Nat) (wantExit : Nat)
 partial def simulate (inp : RunInput) (s : Sys) (fuel : Nat) : Sys :=
   if fuel = 0 then s else
   let stepF := stepOf inp
-  match (permCandidates s).head? with
+  match (permCandidates s []).1.head? with
   | some perm =>
     match stepF s (.main perm) with
     | some s' => simulate inp s' (fuel - 1)
@@ -306,7 +340,10 @@ def handle (j : Json) : Json :=
       let exit := jnat j "exit"
       let errS := (j.getObjValAs? String "err").toOption.getD ""
       let dual := inp.runner = .process
-      let r : Rem := if dual then (tr.filter (fun e => !isWorkerEv e), tr.filter isWorkerEv) else (tr, [])
+      let r : Rem := if dual then
+          (tr.filter (fun e => !isWorkerEv e),
+           (List.range (inp.numProc + 1)).map fun w => tr.filter fun e => isWorkerEv e && workerOf e == w)
+        else (tr, [])
       let (v, b) := search inp dual tr.length exit (errS = "deadlock") (init inp) r {}
       let acyclic := (List.range n).all fun t => !reachesSelf inp n t
       let m1 := monC01Order inp n tr
@@ -316,7 +353,7 @@ def handle (j : Json) : Json :=
       let m5 := monC02AllProcessed inp n tr exit
       Json.mkObj [
         ("accepted", Json.bool (v = .accepted)),
-        ("skipped", Json.bool (v = .budget)),
+        ("skipped", Json.bool (v = .budget || (v = .rejected && b.capped))),
         ("matched", toJson b.matched),
         ("expected", mkArr (b.expected.map fun es => mkArr (es.map evJson))),
         ("steps", toJson b.steps),
